@@ -440,3 +440,118 @@ def reach_wild(g):
         seen = reachable(adj, n) | {n}
         out[n] = sorted(x[:-2] for x in seen if x.endswith(":*") and g["nodes"].get(x, {}).get("type") == 3)
     return out
+
+
+# ---------------------------------------------------------------------------------------------
+# C17: the plain graph the rewrites dictate (independent of Model/PGraph.v)
+# ---------------------------------------------------------------------------------------------
+OPNAME = {4: "union", 5: "intersection", 6: "exclusion"}
+
+
+def plain_expected(m):
+    """-> (non-operator nodes {label: type}, {relation label: description}, number of operator nodes).
+    description of a relation / operator node = sorted list of what enters it:
+      (edge type, tupleset, source label)            for a type, wildcard or relation source
+      ("op", operator, description of the operator)  for an operator source (always a rewrite edge)
+    direct edges are de-duplicated per source, tuple-to-userset edges per (source, tupleset) among all operands of
+    one node; computed operands give one line each."""
+    R = rels_of(m)
+    F = refs_of(m)
+    nodes = {}
+    nops = [0]
+    for t in m[1]:
+        nodes[T(t[0])] = 0
+        for k, _ in t[1]:
+            nodes[T(t[0]) + "#" + T(k)] = 1
+
+    def entering(t, r, u, parent_is_relation):
+        """what the operand u contributes to its parent node: (set of direct, set of ttu, list of others)"""
+        if u[0] == 1:
+            ds = set()
+            for ref in F.get((t, r), []):
+                tg = ref_target(ref)
+                if tg[0] == "type":
+                    nodes.setdefault(tg[1], 0)
+                    ds.add((0, "", tg[1]))
+                elif tg[0] == "wild":
+                    nodes.setdefault(tg[1] + ":*", 3)
+                    ds.add((0, "", tg[1] + ":*"))
+                else:
+                    nodes.setdefault(tg[1] + "#" + tg[2], 1)
+                    ds.add((0, "", tg[1] + "#" + tg[2]))
+            return ds, set(), []
+        if u[0] == 2:
+            lab = t + "#" + T(u[1])
+            nodes.setdefault(lab, 1)
+            return set(), set(), [(3 if parent_is_relation else 1, "", lab)]
+        if u[0] == 3:
+            ts, cu = T(u[1]), T(u[2])
+            out = set()
+            for ref in F.get((t, ts), []):
+                pt = T(ref[0])
+                if (pt, cu) in R:
+                    nodes.setdefault(pt + "#" + cu, 1)
+                    out.add((2, t + "#" + ts, pt + "#" + cu))
+            return set(), out, []
+        kids = u[1:]
+        nops[0] += 1
+        return set(), set(), [("op", OPNAME[u[0]], describe(t, r, kids, False))]
+
+    def describe(t, r, operands, parent_is_relation):
+        ds, ts, rest = set(), set(), []
+        for c in operands:
+            a, b, c2 = entering(t, r, c, parent_is_relation)
+            ds |= a
+            ts |= b
+            rest += c2
+        return sorted(list(ds) + list(ts) + rest, key=repr)
+
+    desc = {}
+    for (t, r), u in R.items():
+        desc[t + "#" + r] = describe(t, r, [u], True)
+    return nodes, desc, nops[0]
+
+
+def plain_decoded(g):
+    """g = (direction, [(id, label, type)], [(from, to, edge type, tupleset)]) -> same triple as plain_expected"""
+    lab = {n[0]: n[1] for n in g[1]}
+    typ = {n[0]: n[2] for n in g[1]}
+    inc = {}
+    for (f, t, et, ts) in g[2]:
+        inc.setdefault(t, []).append((f, et, ts))
+
+    def describe(nid, depth=0):
+        out = []
+        for (f, et, ts) in inc.get(nid, []):
+            if typ[f] == 2:
+                if depth > 64:
+                    out.append(("op-cycle",))
+                else:
+                    out.append(("op", lab[f], describe(f, depth + 1)) if et == 1 and ts == "" else ("op-odd", lab[f], et, ts))
+            else:
+                out.append((et, ts, lab[f]))
+        return sorted(out, key=repr)
+
+    nodes = {n[1]: n[2] for n in g[1] if n[2] != 2}
+    desc = {n[1]: describe(n[0]) for n in g[1] if n[2] == 1}
+    return nodes, desc, sum(1 for n in g[1] if n[2] == 2)
+
+
+def plain_structure_mismatch(m, g):
+    en, ed, eo = plain_expected(m)
+    gn, gd, go = plain_decoded(g)
+    if len([n for n in g[1] if n[2] != 2]) != len(gn):
+        return "two nodes carry the same label"
+    if en != gn:
+        miss = sorted(set(en.items()) - set(gn.items()))[:4]
+        extra = sorted(set(gn.items()) - set(en.items()))[:4]
+        return "nodes differ from what the rewrites dictate: missing %s, unexpected %s" % (miss, extra)
+    if eo != go:
+        return "%d operator nodes, the rewrites contain %d operators" % (go, eo)
+    for k in sorted(ed):
+        if ed[k] != gd.get(k, []):
+            return "what enters %s is %s, the rewrite dictates %s" % (k, gd.get(k, []), ed[k])
+    for k in sorted(gd):
+        if k not in ed and gd[k]:
+            return "edges enter %s, which no rewrite defines: %s" % (k, gd[k])
+    return None
